@@ -559,7 +559,14 @@ def sample(case, obs):
     return {"case": case, "observation": {k: obs.get(k) for k in ("global", "item_biases", "user_biases", "queries")}}
 
 
+_shrinks = [0]
+MAX_SHRINKS = 6          # per run: a broken build otherwise shrinks dozens of keys, each with many re-runs
+
+
 def shrink(case, fails):
+    _shrinks[0] += 1
+    if _shrinks[0] > MAX_SHRINKS:
+        return case
     c = dict(case)
     c["queries"] = common.shrink_list(case["queries"], lambda xs: fails({**c, "queries": xs}), 20)
     c["cutoffs"] = common.shrink_list(case["cutoffs"], lambda xs: fails({**c, "cutoffs": xs}), 10)
